@@ -90,7 +90,7 @@ func (pr *product) summarize(a Actor, p *drv.Party, inbox []*protocol.Message) *
 				k = pr.sc.ResultKey(r)
 			}
 			s.Status = "done:" + k
-		case err != nil && err.Error() == "protocol: not finished":
+		case drv.IsNotFinished(err):
 			s.Status = "running"
 		default:
 			s.Status = "error:" + err.Error()
